@@ -109,7 +109,8 @@ def sortQ (l : List Rat) : List Rat := l.foldr insertS []
 /-- `_run_natural_break` + `_bin` (numpy backend).  `sample` are the finite sample cells (all finite cells
     when `num_sample` is None or not smaller than the raster).  `rnd` is the rounding applied when a break is
     stored in the `kclass` / `bins` array; the repaired code keeps the data's precision (`rnd = id`).
-    In both branches the last bin is the raster maximum. -/
+    In both branches the last bin is the raster maximum (the fallback branch adds it to the distinct sample
+    values, the Jenks branch overwrites the last break with it). -/
 def naturalBreaks (sh : Shape) (rnd : Rat → Rat) (cells : List (Ext Rat)) (sample : List Rat) (k : Nat) : Res :=
   match maxQ (finiteVals cells) with
   | none => .err "ValueError"
@@ -117,8 +118,8 @@ def naturalBreaks (sh : Shape) (rnd : Rat → Rat) (cells : List (Ext Rat)) (sam
     let uv := uniq sample
     let uvk := uv.length
     if uvk < k then
-      let bins := setLast uv mx
-      .ok (cells.map (cellS sh (bins.map .fin) (classIds uvk))) bins
+      let bins := insertU mx uv        -- np.unique(np.append(uv, max_data))
+      .ok (cells.map (cellS sh (bins.map .fin) (classIds bins.length))) bins
     else
       match kclass (sortQ sample) k with
       | none => .err "degenerate"
